@@ -268,7 +268,7 @@ EXPORT errno_t _strncat_s_chk(char *restrict dest, rsize_t dmax,
         }
 
         while (dmax > 0) {
-            if (unlikely(src == overlap_bumper)) {
+            if (unlikely(src == overlap_bumper && slen > 0)) {
                 handle_error(orig_dest, orig_dmax,
                              "strncat_s: "
                              "overlapping objects",
